@@ -156,7 +156,24 @@ impl<'c, 'd> ProgGen<'c, 'd> {
         if self.cfg.obfuscate_16 > 0 && self.ch.chance(self.cfg.obfuscate_16, 16) {
             self.features.insert("type-level computation in an annotation");
             let fresh = self.fresh_name();
-            return Some(match self.ch.pick(4) {
+            return Some(match self.ch.pick(7) {
+                4..=6 => {
+                    // A type-level conditional on a comparison of literals: every operator, equal
+                    // and unequal operands, the wanted type in whichever branch is taken.
+                    let (a, b) = (self.ch.pick(4) as i64, self.ch.pick(4) as i64);
+                    let (a, b) = if self.ch.chance(1, 3) { (a, a) } else { (a, b) };
+                    let op = [Op::Lt, Op::Le, Op::Eq, Op::Gt, Op::Ge][self.ch.pick(5)];
+                    let truth = match op {
+                        Op::Lt => a < b,
+                        Op::Le => a <= b,
+                        Op::Eq => a == b,
+                        Op::Gt => a > b,
+                        _ => a >= b,
+                    };
+                    let other = if matches!(plain, S::Bool) { S::Int } else { S::Bool };
+                    let cond = sast::bin(op, sast::lit(a), sast::lit(b));
+                    if truth { sast::ite(cond, plain, other) } else { sast::ite(cond, other, plain) }
+                }
                 0 => sast::ite(S::True, plain, S::Bool),
                 1 => sast::app(sast::lam(&fresh, Some(S::Type), sast::var(&fresh)), plain),
                 2 => sast::let_(vec![(&fresh, Some(S::Type), plain)], sast::var(&fresh)),
